@@ -97,10 +97,11 @@ def entries(prop: str | None = None):
             out.append({"id": "seed:" + m["id"], "kind": "seed", "prop": m["property"], "patch": os.path.join(os.path.dirname(mp), "patch.diff")})
     for mp in sorted(glob.glob(os.path.join(HERE, "refactors", "*", "meta.json"))):
         m = json.load(open(mp))
-        if not m.get("silent", True) and not m.get("expected_silent", True):
-            continue
-        if prop is None or m["property"] == prop:
-            out.append({"id": "ref:" + m["id"], "kind": "refactor", "prop": m["property"], "patch": os.path.join(os.path.dirname(mp), "patch.diff")})
+        # a refactor is re-checked under its own property and under every property whose check it once (wrongly) alarmed
+        props = sorted({m["property"]} | set(m.get("alarms_when_first_run", {})) | set(m.get("alarms", {})))
+        for p_ in props:
+            if prop is None or p_ == prop:
+                out.append({"id": "ref:" + m["id"] + ("" if p_ == m["property"] else "@" + p_), "kind": "refactor", "prop": p_, "patch": os.path.join(os.path.dirname(mp), "patch.diff")})
     return out
 
 
